@@ -51,12 +51,58 @@ pub fn spawn_shards(args: &[String], n: u64, procs: usize) -> (std::path::PathBu
     }
     for (k, mut c) in kids.into_iter().enumerate() {
         let st = c.wait().expect("wait shard");
+        if st.code() == Some(3) {
+            // the shard's watchdog fired: a hang, recorded in <k>.hang; the rest of that shard's
+            // range is lost, the check reports the hang
+            continue;
+        }
         if !st.success() {
             eprintln!("harness error: shard {} exited with {:?}", k, st.code());
             std::process::exit(2);
         }
     }
     (dir, procs)
+}
+
+/// Watchdog for shards whose work runs in-process (no seam to count): the shard publishes what it
+/// is working on; if that does not change for `limit`, the input is reported as a hang and the
+/// shard exits with code 3. Which input hangs is deterministic; only the detection delay is not.
+pub struct Heartbeat {
+    /// (beat counter, description of the current input, its bytes)
+    pub current: std::sync::Arc<Mutex<(u64, String, Vec<u8>)>>,
+}
+
+impl Heartbeat {
+    pub fn start(out: &str, limit: std::time::Duration) -> Heartbeat {
+        let current = std::sync::Arc::new(Mutex::new((0u64, String::new(), Vec::new())));
+        let c2 = current.clone();
+        let out = out.to_string();
+        std::thread::spawn(move || {
+            let mut last = (u64::MAX, Instant::now());
+            loop {
+                std::thread::sleep(std::time::Duration::from_millis(500));
+                let n = c2.lock().map(|g| g.0).unwrap_or(0);
+                if n != last.0 {
+                    last = (n, Instant::now());
+                } else if last.1.elapsed() > limit && n > 0 {
+                    let (what, bytes) = c2.lock().map(|g| (g.1.clone(), g.2.clone())).unwrap_or_default();
+                    let v = serde_json::json!({"what": what, "hex": crate::plan::hexbytes::hex(&bytes)});
+                    let _ = std::fs::write(format!("{}.hang", out), v.to_string());
+                    std::process::exit(3);
+                }
+            }
+        });
+        Heartbeat { current }
+    }
+    pub fn beat(&self, what: &str, bytes: &[u8]) {
+        if let Ok(mut g) = self.current.lock() {
+            g.0 += 1;
+            g.1.clear();
+            g.1.push_str(what);
+            g.2.clear();
+            g.2.extend_from_slice(bytes);
+        }
+    }
 }
 
 pub fn write_hashes(path: &std::path::Path, hs: &std::collections::HashSet<u64>) {
